@@ -48,6 +48,36 @@ pub struct ScenCase {
     pub scenario: String,
     /// the generated JSON (the reproducible unit: datafake's RNG cannot be seeded)
     pub generated: Value,
+    /// "draw" = a plain draw; "record-holder" = kept from the tail search
+    #[serde(default)]
+    pub origin: String,
+}
+
+/// (path, kind, score) per JSON leaf: kind 0 = string length, 1 = magnitude of a number,
+/// 2 = number of decimals of a number
+fn leaf_scores(v: &Value, path: &str, out: &mut Vec<(String, u8, u64)>) {
+    match v {
+        Value::String(s) => out.push((path.to_string(), 0, s.chars().count() as u64)),
+        Value::Number(n) => {
+            let f = n.as_f64().unwrap_or(0.0).abs();
+            out.push((path.to_string(), 1, (f.min(1e18)) as u64));
+            let t = n.to_string();
+            let d = t.split('.').nth(1).map(|x| x.len()).unwrap_or(0);
+            out.push((path.to_string(), 2, d as u64));
+        }
+        Value::Array(a) => {
+            // the index is kept: each occurrence is its own slot
+            for (i, x) in a.iter().enumerate() {
+                leaf_scores(x, &format!("{path}/{i}"), out);
+            }
+        }
+        Value::Object(o) => {
+            for (k, x) in o {
+                leaf_scores(x, &format!("{path}/{k}"), out);
+            }
+        }
+        _ => {}
+    }
 }
 
 /// exact comparison: numbers as decimals, absent == null, nothing else
@@ -136,6 +166,9 @@ pub fn oracle(c: &ScenCase, obs: &mut Obs) -> Vec<Violation> {
     let sc = &c.scenario;
     obs.nontrivial_str(&format!("{}|{}", sc, c.generated));
     obs.class(sc.split('/').next().unwrap_or(""));
+    if c.origin == "record-holder" {
+        obs.class("tail-search:record-holder");
+    }
     obs.sample(
         sc.split('/').next().unwrap_or(""),
         || json!({"scenario": sc, "generated": c.generated}),
@@ -196,7 +229,8 @@ pub fn oracle(c: &ScenCase, obs: &mut Obs) -> Vec<Violation> {
 pub fn run(ctx: &Ctx) {
     let files = scenario_files();
     let draws = ctx.n(300, 5000);
-    ctx.add_rule(&format!("every scenario file under test_scenarios (all but index.json: {} files) x {} draws of the real pipeline generate_mt -> publish_mt -> validate_mt -> parse_mt; oracle: publish ok, valid with no error, parsed JSON equals generated JSON (numbers compared exactly as decimals, absent == null); non-trivial = every draw; distinct by generated JSON", files.len(), draws));
+    let gens = ctx.n(6000, 60000);
+    ctx.add_rule(&format!("every scenario file under test_scenarios (all but index.json: {} files) x {} draws of the real pipeline generate_mt -> publish_mt -> validate_mt -> parse_mt, plus a tail search per file: of {} further generate_mt draws the record holders (per JSON leaf: longest string, largest number, most decimals) go through the same pipeline; oracle: publish ok, valid with no error, parsed JSON equals generated JSON (numbers compared exactly as decimals, absent == null); non-trivial = every draw; distinct by generated JSON", files.len(), draws, gens));
     ctx.assume("datafake-rs / fake draw from the thread RNG, which cannot be seeded: these draws are not a function of VERIF_SEED; the generated JSON of a failing draw is saved and is the reproducible unit");
     let to_json = |c: &ScenCase| serde_json::to_value(c).unwrap();
     ctx.run_enumerated(
@@ -213,20 +247,61 @@ pub fn run(ctx: &Ctx) {
                     return vec![ScenCase {
                         scenario: files[sh].clone(),
                         generated: json!({"__unreadable_scenario__": true}),
+                        origin: "draw".into(),
                     }];
                 }
             };
             let mut v = Vec::new();
-            for _ in 0..draws {
+            // tail search: of `gens` further generate_mt draws, only the record holders go through
+            // the pipeline: per JSON leaf the longest string, the largest number and the number with
+            // the most decimals. Rare long names / large amounts are reached without paying for the
+            // whole pipeline on every draw.
+            let mut records: std::collections::BTreeMap<(String, u8), (u64, Value)> =
+                Default::default();
+            for i in 0..draws + gens {
                 match plugin_generate(&scen) {
-                    Ok(g) => v.push(ScenCase {
-                        scenario: files[sh].clone(),
-                        generated: g,
-                    }),
+                    Ok(g) => {
+                        if i < draws {
+                            v.push(ScenCase {
+                                scenario: files[sh].clone(),
+                                generated: g,
+                                origin: "draw".into(),
+                            });
+                        } else {
+                            let mut leaves = Vec::new();
+                            leaf_scores(&g, "", &mut leaves);
+                            let mut holder = false;
+                            for (path, kind, score) in &leaves {
+                                let key = (path.clone(), *kind);
+                                if records.get(&key).map(|(s, _)| score > s).unwrap_or(true) {
+                                    holder = true;
+                                }
+                            }
+                            if holder {
+                                for (path, kind, score) in leaves {
+                                    let key = (path, kind);
+                                    if records.get(&key).map(|(s, _)| score > *s).unwrap_or(true) {
+                                        records.insert(key, (score, g.clone()));
+                                    }
+                                }
+                            }
+                        }
+                    }
                     Err(e) => v.push(ScenCase {
                         scenario: files[sh].clone(),
                         generated: json!({"__generate_failed__": e.text()}),
+                        origin: "draw".into(),
                     }),
+                }
+            }
+            let mut seen = std::collections::BTreeSet::new();
+            for (_, (_, g)) in records {
+                if seen.insert(g.to_string()) {
+                    v.push(ScenCase {
+                        scenario: files[sh].clone(),
+                        generated: g,
+                        origin: "record-holder".into(),
+                    });
                 }
             }
             v
